@@ -112,6 +112,77 @@ theorem seqsOf_eq (w : Nat) (auto : Bool) (κ : Key) (ops : List Op) :
 
 /-! ### the node, configuration `Cfg.code` -/
 
+theorem le_firstFree (store : List (BundleId × Bundle)) (k : Key) : ∀ (fuel v : Nat), v ≤ firstFree store k fuel v
+  | 0, v => Nat.le_refl v
+  | fuel + 1, v => by
+    unfold firstFree
+    split
+    · exact Nat.le_trans (Nat.le_succ v) (le_firstFree store k fuel (v + 1))
+    · exact Nat.le_refl v
+
+/-! #### the loop of `updateUnless` ends at a free number (counting argument) -/
+
+private def pFrom (k : Key) (v : Nat) (e : BundleId × Bundle) : Bool :=
+  e.1.source == k.source && e.1.time == k.time && decide (v ≤ e.1.seq)
+
+private theorem pFrom_succ {k : Key} {v : Nat} {e : BundleId × Bundle} (h : pFrom k (v + 1) e = true) :
+    pFrom k v e = true := by
+  unfold pFrom at h ⊢
+  simp only [Bool.and_eq_true, decide_eq_true_eq] at h ⊢
+  exact ⟨h.1, by omega⟩
+
+private theorem countP_succ_lt_of_mem (k : Key) (v : Nat) :
+    ∀ (s : List (BundleId × Bundle)) (e : BundleId × Bundle), e ∈ s → e.1 = ⟨k.source, k.time, v⟩ →
+    s.countP (pFrom k (v + 1)) < s.countP (pFrom k v)
+  | [], _, h, _ => by cases h
+  | x :: s, e, h, he => by
+    have hle : s.countP (pFrom k (v + 1)) ≤ s.countP (pFrom k v) :=
+      List.countP_mono_left (fun _ _ h => pFrom_succ h)
+    simp only [List.countP_cons]
+    rcases List.mem_cons.mp h with hx | hx
+    · subst hx
+      have h1 : pFrom k (v + 1) e = false := by simp [pFrom, he]
+      have h2 : pFrom k v e = true := by simp [pFrom, he]
+      simp only [h1, h2, Bool.false_eq_true, if_false, if_true]
+      omega
+    · have ih := countP_succ_lt_of_mem k v s e hx he
+      by_cases hc : pFrom k (v + 1) x = true
+      · simp only [hc, pFrom_succ hc, if_true]; omega
+      · have hc' : pFrom k (v + 1) x = false := by simpa using hc
+        by_cases hd : pFrom k v x = true
+        · simp only [hc', hd, Bool.false_eq_true, if_false, if_true]; omega
+        · have hd' : pFrom k v x = false := by simpa using hd
+          simp only [hc', hd', Bool.false_eq_true, if_false]; omega
+
+/-- With enough fuel the loop ends at a number whose id the store does not know. -/
+theorem firstFree_free (store : List (BundleId × Bundle)) (k : Key) :
+    ∀ (fuel v : Nat), store.countP (pFrom k v) < fuel →
+      knows store ⟨k.source, k.time, firstFree store k fuel v⟩ = false
+  | 0, _, h => absurd h (Nat.not_lt_zero _)
+  | fuel + 1, v, h => by
+    unfold firstFree
+    by_cases hk : knows store ⟨k.source, k.time, v⟩ = true
+    · simp only [hk, if_true]
+      obtain ⟨e, hmem, hid⟩ := (by simpa [knows] using hk : ∃ e ∈ store, e.1 = ⟨k.source, k.time, v⟩)
+      have := countP_succ_lt_of_mem k v store e hmem hid
+      exact firstFree_free store k fuel (v + 1) (by omega)
+    · simp only [hk]
+      simpa using hk
+
+/-- **The number `updateUnless` writes into the bundle is free**: at the moment of `stamp` the store does
+not know the resulting id — for every store and every counter value, no retention hypothesis. -/
+theorem stampSeq_free (n : Node) (k : Key) :
+    knows n.store ⟨k.source, k.time, stampSeq Cfg.code n k⟩ = false := by
+  unfold stampSeq
+  simp only [show Cfg.code.skipKnown = true from rfl, if_true]
+  exact firstFree_free n.store k _ _ (Nat.lt_succ_of_le List.countP_le_length)
+
+theorem le_stampSeq (c : Cfg) (n : Node) (k : Key) : (n.keeper k).getD 0 ≤ stampSeq c n k := by
+  unfold stampSeq
+  split
+  · exact le_firstFree _ _ _ _
+  · exact Nat.le_refl _
+
 theorem prog_code : prog Cfg.code = [.lock, .read, .write, .stamp, .unlock, .clean, .push, .send] := rfl
 
 @[simp, grind =] theorem setTh_th (n : Node) (i : Nat) (t : Th) (j : Nat) :
@@ -174,11 +245,15 @@ theorem inv_step (subs : Nat → Sub) (A : Nat → Prop)
     · -- write
       unfold exec
       constructor <;> simp only [Node.bump, setTh_th, setTh_keeper, setTh_holder, Keeper.set] <;> grind [nextOf]
-    · -- stamp
+    · -- stamp (with the skip loop: the number is at least the counter, and the counter follows it)
       unfold exec
       have hsome := (hw i hpc).1
       have hget := getD_succ_eq_nextOf _ hsome
-      constructor <;> simp only [Node.bump, setTh_th, setTh_keeper, setTh_holder] <;> grind
+      have hle := le_stampSeq Cfg.code n (subs i).key
+      have hskip : Cfg.code.skipKnown = true := rfl
+      generalize stampSeq Cfg.code n (subs i).key = q at hle ⊢
+      simp only [hskip, if_true]
+      constructor <;> simp only [Node.bump, setTh_th, setTh_keeper, setTh_holder, Keeper.set] <;> grind [nextOf]
     · -- unlock
       unfold exec
       constructor <;> simp only [Node.bump, setTh_th, setTh_keeper, setTh_holder] <;> grind
